@@ -318,4 +318,34 @@ PROPS = {
             rap("boundaries", "^TestC08Boundaries$", 2, 20, 8, 16),
         ],
     },
+    "C19": {
+        "level": "exploration",
+        "level_text": "generated streams x predicates x parser kinds; the skipper is compared with the stream from which the selected packets were "
+                      "deleted (decisions computed from the reference decode of every packet), its call log with the reference decode; the parser's "
+                      "groups are compared with the per-PID payload packets of the model and the output with the data it returned",
+        "level_note": "the PAT group is never replaced or refused by the harness' parser (the demuxer learns PMT PIDs from the PAT data passing through "
+                      "it); null/CAT noise is left out of the parser unit because identical null packets are legitimately dropped as duplicates",
+        "technique": "rapid metamorphic/differential testing (skipper vs pre-filtered stream; parser call log vs reference model)",
+        "rule": "rapid-generated streams; non-trivial = predicate selects some but not all packets / >= 2 PIDs and a multi-packet unit; distinct by stream "
+                "bytes + decisions",
+        "assumptions": [],
+        "units": [
+            rap("skipper", "^TestC19Skipper$", 1500, 15000, 4, 16),
+            rap("parser", "^TestC19Parser$", 1500, 15000, 4, 16),
+        ],
+    },
+    "C20": {
+        "level": "exploration",
+        "level_text": "for every generated stream the rewind point is enumerated exhaustively (every number of NextData/NextPacket calls from 0 to the "
+                      "end, with a second rewind at some points), with explicit and auto-detected packet size; the output after Rewind is compared "
+                      "with a fresh Demuxer's",
+        "level_note": "bytes.Reader only (Rewind needs a seekable reader); streams keep the PAT before their PMTs and constant PID roles, as the property states",
+        "technique": "rapid streams x exhaustive enumeration of the rewind point, differential against a fresh instance",
+        "rule": "rapid-generated streams x all rewind points; non-trivial = stream with a multi-packet or multi-section unit (so that some rewind point "
+                "is mid-unit or has buffered sections); distinct by stream bytes + configuration",
+        "assumptions": [],
+        "units": [
+            rap("rewind", "^TestC20Rewind$", 150, 1500, 6, 16),
+        ],
+    },
 }
